@@ -2048,6 +2048,139 @@ theorem addMultiple_override (P cs : List Candle) (t0 : Int) (hne : cs ≠ []) (
   have h1 : (P ++ c0 :: rest).length - (c0 :: rest).length = P.length := by simp
   rw [h1, List.take_left' rfl, List.take_length]
 
+theorem LInv.of_same {e e' : Engine M} {sym : Nat} {t0 : Int} {rows : List Candle} (h : StoreFrame.SSame e e')
+    (hi : LInv e sym t0 rows) : LInv e' sym t0 rows := by
+  obtain ⟨h1, h2⟩ := h
+  have hst : storeOf e' sym = storeOf e sym := by unfold storeOf; rw [h1]
+  exact ⟨by rw [h1]; exact hi.hs, by rw [hst]; exact hi.short, hi.spaced, by rw [hst, h2]; exact hi.pre⟩
+
+/-- the liquidation check at the end of a chunk keeps `LInv` -/
+theorem checkLiquidation_keeps_linv (e : Engine M) (sym : Nat) (c : Candle) (t0 : Int) (rows : List Candle)
+    (hal : AlignedCfg e.cfg sym t0) (hne : rows ≠ []) (hl : LInv e sym t0 rows) :
+    LInv (checkLiquidation u e sym c) sym t0 rows ∧ (checkLiquidation u e sym c).cfg = e.cfg := by
+  obtain ⟨l, hlast⟩ : ∃ l, rows.getLast? = some l := by
+    cases h : rows.getLast? with
+    | none => exact absurd (List.getLast?_eq_none_iff.mp h) hne
+    | some l => exact ⟨l, rfl⟩
+  have hp : EPre e sym t0 l.ts rows.dropLast :=
+    ⟨hl.hs, by rw [hl.short], by rw [hl.short]; exact hl.spaced, ⟨l, by rw [hl.short]; exact hlast, rfl⟩,
+      by intro m hm; rw [hl.short]; exact hl.pre m hm⟩
+  obtain ⟨hp2, hcfg⟩ := checkLiquidation_keeps_pre u e sym c t0 l.ts rows.dropLast hal hp
+  have hsh := checkLiquidation_short u e sym c t0 l.ts rows.dropLast hal hp
+  have hsh2 : (storeOf (checkLiquidation u e sym c) sym).short = rows := by rw [hsh, hl.short]
+  exact ⟨⟨hp2.hs, hsh2, hl.spaced, by intro m hm; rw [← hsh2]; exact hp2.pre m hm⟩, hcfg⟩
+
+/-- A WHOLE CHUNK OF THE FAST SIMULATOR for one symbol, every strategy: from `EInv` with rows `P` to the rows `P ++ cs`
+    stored with `PreInv` for every timeframe (the chunk lies inside one window of each), or the run was stopped. -/
+theorem simulateChunk_inv (fuel : Nat) (e : Engine M) (sym : Nat) (cs : List Candle) (t0 : Int) (P : List Candle)
+    (hal : AlignedCfg e.cfg sym t0) (hi : EInv e sym t0 P) (hne : cs ≠ [])
+    (hts : ∀ j (h : j < cs.length), cs[j].ts = t0 + 60000 * ((P.length + j : Nat) : Int))
+    (hwin : ∀ m ∈ tfsRaw e.cfg sym, ∀ j, j + 1 < cs.length → (P.length + j + 1) % m ≠ 0) :
+    (simulateChunk u fuel e sym cs).err.isSome ∨
+    (LInv (simulateChunk u fuel e sym cs) sym t0 (P ++ cs) ∧ (simulateChunk u fuel e sym cs).cfg = e.cfg) := by
+  have hspc : Spaced t0 (P ++ cs) := by
+    intro j hj
+    by_cases hjl : j < P.length
+    · rw [List.getElem_append_left hjl]; exact hi.spaced j hjl
+    · have hj2 : j - P.length < cs.length := by simp at hj; omega
+      rw [List.getElem_append_right (by omega)]
+      rw [hts (j - P.length) hj2]
+      congr 2
+      omega
+  unfold simulateChunk
+  dsimp only
+  split
+  · left; assumption
+  · split
+    · left
+      rename_i k hk
+      unfold fail; split
+      · assumption
+      · rfl
+    · rename_i real hreal
+      -- the per-minute loop (only when some order lies inside the chunk's range)
+      have h1 : (if (executingOrders e sym real).length > 0 then
+            simulateChunk.perMinute u fuel sym real cs none e
+              (if (executingOrders e sym real).length > 1 then sortExecutionOrders e (executingOrders e sym real) cs else executingOrders e sym real)
+            else e).err.isSome ∨
+          (((storeOf (if (executingOrders e sym real).length > 0 then
+            simulateChunk.perMinute u fuel sym real cs none e
+              (if (executingOrders e sym real).length > 1 then sortExecutionOrders e (executingOrders e sym real) cs else executingOrders e sym real)
+            else e) sym).short = P ∨
+            (storeOf (if (executingOrders e sym real).length > 0 then
+            simulateChunk.perMinute u fuel sym real cs none e
+              (if (executingOrders e sym real).length > 1 then sortExecutionOrders e (executingOrders e sym real) cs else executingOrders e sym real)
+            else e) sym).short = P ++ cs) ∧
+           sym < (if (executingOrders e sym real).length > 0 then
+            simulateChunk.perMinute u fuel sym real cs none e
+              (if (executingOrders e sym real).length > 1 then sortExecutionOrders e (executingOrders e sym real) cs else executingOrders e sym real)
+            else e).stores.length ∧
+           (∀ m ∈ tfsRaw e.cfg sym, PreInv m (P ++ cs) (longOf (storeOf (if (executingOrders e sym real).length > 0 then
+            simulateChunk.perMinute u fuel sym real cs none e
+              (if (executingOrders e sym real).length > 1 then sortExecutionOrders e (executingOrders e sym real) cs else executingOrders e sym real)
+            else e) sym) m)) ∧
+           (if (executingOrders e sym real).length > 0 then
+            simulateChunk.perMinute u fuel sym real cs none e
+              (if (executingOrders e sym real).length > 1 then sortExecutionOrders e (executingOrders e sym real) cs else executingOrders e sym real)
+            else e).cfg = e.cfg) := by
+        split
+        · rcases perMinute_inv u fuel sym real t0 cs none e _ P hal hi hne hts hwin with herr | ⟨hl, hc⟩
+          · left; exact herr
+          · right
+            exact ⟨Or.inr hl.short, hl.hs, by intro m hm; exact hl.pre m (by rw [hc]; exact hm), hc⟩
+        · right
+          refine ⟨Or.inl hi.short, hi.hs, ?_, rfl⟩
+          intro m hm
+          exact pre_of_new_minutes m (hal.2 m hm).1 _ cs P hne (hi.inv m hm) (hwin m hm)
+      revert h1
+      generalize (if (executingOrders e sym real).length > 0 then
+            simulateChunk.perMinute u fuel sym real cs none e
+              (if (executingOrders e sym real).length > 1 then sortExecutionOrders e (executingOrders e sym real) cs else executingOrders e sym real)
+            else e) = e1
+      intro h1
+      split
+      · left; assumption
+      · rcases h1 with herr | ⟨hsh, hs1, hpre1, hcfg1⟩
+        · rename_i hno; exact absurd herr hno
+        · -- add_multiple_1m_candles yields the rows P ++ cs in both cases
+          have hadd : addMultiple1m (storeOf e1 sym).short cs = .ok (P ++ cs) := by
+            rcases hsh with h | h
+            · rw [h]; exact addMultiple_append P cs t0 hne hspc
+            · rw [h]; exact addMultiple_override P cs t0 hne hspc
+          rw [hadd]
+          dsimp only
+          -- the state after the write
+          have hst2 : storeOf { e1 with stores := Acc.upd e1.stores sym (fun s => { s with short := P ++ cs }),
+                                        time := real.ts + 60000 * cs.length } sym = { storeOf e1 sym with short := P ++ cs } := by
+            unfold storeOf
+            show (Acc.upd e1.stores sym _).getD sym default = _
+            rw [StoreFrame.getD_upd_same _ _ _ hs1]
+          have hl2 : LInv { e1 with stores := Acc.upd e1.stores sym (fun s => { s with short := P ++ cs }),
+                                    time := real.ts + 60000 * cs.length } sym t0 (P ++ cs) := by
+            refine ⟨by show sym < (Acc.upd e1.stores sym _).length; rw [StoreFrame.length_upd]; exact hs1, by rw [hst2], hspc, ?_⟩
+            intro m hm
+            rw [hst2]
+            have hm' : m ∈ tfsRaw e.cfg sym := by
+              have : ({ e1 with stores := Acc.upd e1.stores sym (fun s => { s with short := P ++ cs }),
+                                time := real.ts + 60000 * cs.length } : Engine M).cfg = e.cfg := hcfg1
+              rw [← this]; exact hm
+            exact hpre1 m hm'
+          have hne2 : P ++ cs ≠ [] := by simp [hne]
+          have hal2 : AlignedCfg ({ e1 with stores := Acc.upd e1.stores sym (fun s => { s with short := P ++ cs }),
+                                            time := real.ts + 60000 * cs.length } : Engine M).cfg sym t0 := by
+            show AlignedCfg e1.cfg sym t0; rw [hcfg1]; exact hal
+          obtain ⟨hl3, hcfg3⟩ := checkLiquidation_keeps_linv u _ sym real t0 (P ++ cs) hal2 hne2 hl2
+          have hcfg4 := hcfg3.trans hcfg1
+          revert hl3 hcfg4
+          generalize checkLiquidation u _ sym real = e3
+          intro hl3 hcfg4
+          right
+          split
+          · rename_i lastc _
+            have hss : StoreFrame.SSame e3 (setCurrentPrice e3 sym lastc.c) := ⟨rfl, rfl⟩
+            exact ⟨LInv.of_same hss hl3, by rw [hss.2]; exact hcfg4⟩
+          · exact ⟨hl3, hcfg4⟩
+
 end run
 
 end C07
